@@ -103,6 +103,10 @@ def evaluate_paths(F, cls, f, count_member="num_segments_", preset=None, fix_pro
             return None
         if ccls.endswith("::Workspace") and nm == "resize":
             I.notes.append(("ws-resize", [I.ev(a, env) for a in e["args"]], I.tick()))
+            if (e.get("t") or {}).get("c") == "bool":
+                # a resize that reports whether it re-laid the buffers out: both outcomes are possible (workspace history)
+                I.bool_inputs.add("ws_was_resized")
+                return sp.Symbol("ws_was_resized")
             return None
         if is_spline_cls(ccls):
             args = [I.evl(a, env) for a in e["args"]]
